@@ -598,6 +598,8 @@ func c07Directed() []*c07Sched {
 		add("end", 3, col, true, false, "Q")
 		// chat and unknown lines between everything
 		add("chat", 3, col, true, false, "C:0 A:0 C:1 L:0 C:2 C:3 G C:4 A:0 C:5 C:6 L:1 C:7 T C:8 A:0 C:9 U C:10 X C:11 C:12 C:13 C:14 C:15 A:0")
+		add("chat", 3, col, true, false, "A:0 C:16 C:17 L:0 C:18 G C:19 C:20 A:0 C:21 C:22 L:1 C:23 T C:24 A:0 C:25 C:26 U C:27 X C:18 A:0")
+		add("chat", 3, col, true, true, "L:0 G C:18 L:0 C:16 G L:0 C:19 G C:17 L:0 G")
 		// a game played to its end (3x3 fills up quickly)
 		add("fullgame", 3, col, true, true, "L:0 G L:0 G L:0 G L:0 G L:0 G L:0 G L:0 G L:0 G L:0 G L:0 G")
 		add("fullgame", 3, col, true, false, "A:0 L:0 G A:0 L:0 G A:0 L:0 G A:0 L:0 G A:0 L:0 G A:0 L:0 G A:0 L:0 G A:0 L:0 G A:0 L:0 G A:0 L:0 G A:0 O")
@@ -657,7 +659,7 @@ func c07Random(c *ctx, n int) []*c07Sched {
 			case x < 92:
 				s.ops = append(s.ops, "X")
 			case x < 97:
-				s.ops = append(s.ops, "C:"+a)
+				s.ops = append(s.ops, "C:"+strconv.Itoa(c.r.Intn(28)))
 			case x < 98:
 				s.ops = append(s.ops, "O")
 			case x < 99:
